@@ -277,3 +277,73 @@ mst_fanout = Contract(
     properties=("C10", "C01"), min_obligations=1, no_replay=True, note="concrete scenario S -> {X, Y}, hop X-Y already green",
 )
 CONTRACTS += [mst_fanout, mst_tree, route_edge, get_plc]
+
+# =================================================================================================
+# ConstantPropagationOptimizer.optimize — folding of a single-condition decider whose two compared operands are anonymous
+# constants.  Scenario (concrete node list, symbolic values): constants a, b, a value node v, decider d = (a CMP b) : v.
+#   v an anonymous constant V : d is replaced by one constant of value (a CMP b ? V : 0)  — V = 0 included
+#   v a run-time signal       : d stays when a CMP b holds (it passes v through), becomes the constant 0 otherwise
+#   v a declared input        : d stays (inputs are never folded through)
+# =================================================================================================
+CPO = "dsl_compiler/src/ir/optimizer.py::ConstantPropagationOptimizer."
+
+
+def _mk_const_t(declared):
+    return ty.TObj("IRConst", only=("IRConst",), ftypes=(("value", ty.Int), ("signals", ty.TConcrete({})), ("debug_metadata", ty.TConcrete({"user_declared": True} if declared else {})),
+                                                          ("debug_label", ty.TConcrete(None)), ("output_type", ty.TConcrete("signal-A")), ("source_ast", ty.TConcrete(None))))
+
+
+def _ref_t(nid):
+    return ty.TObj("SignalRef", only=("SignalRef",), ftypes=(("source_id", ty.TConcrete(nid)), ("signal_type", ty.TConcrete("signal-A")),
+                                                             ("debug_label", ty.TConcrete(None)), ("source_ast", ty.TConcrete(None)), ("debug_metadata", ty.TConcrete({}))))
+
+
+def _fold_scenario(op, kind):
+    v_node = {"const": _mk_const_t(False), "input": _mk_const_t(True),
+              "signal": ty.TObj("IRArith", only=("IRArith",), ftypes=(("left", _ref_t("x")), ("right", ty.Int), ("op", ty.TConcrete("+")), ("debug_metadata", ty.TConcrete({})),
+                                                                    ("output_type", ty.TConcrete("signal-A"))))}[kind]
+    dec = ty.TObj("IRDecider", only=("IRDecider",), ftypes=(
+        ("left", _ref_t("a")), ("right", _ref_t("b")), ("output_value", _ref_t("v")), ("test_op", ty.TConcrete(op)), ("conditions", ty.TConcrete([])),
+        ("copy_count_from_input", ty.TConcrete(True)), ("output_type", ty.TConcrete("signal-A")), ("debug_label", ty.TConcrete("r")),
+        ("debug_metadata", ty.TConcrete({"name": "r"})), ("source_ast", ty.TConcrete(None))))
+    nodes = (("a", _mk_const_t(False)), ("b", _mk_const_t(False)), ("v", v_node), ("d", dec))
+
+    def post(a, res):
+        from spec import arith32 as A
+        ops_in = {n: o for n, o in zip("abvd", a.ir_operations)}
+        truth = A.cmp(op, ops_in["a"].value, ops_in["b"].value)
+        ids = [o.node_id for o in res]
+        folded = [o for o in res if o.node_id == "d_folded"]
+        d_kept = "d" in ids
+        if kind == "const":
+            if d_kept or len(folded) != 1:
+                return False
+            return folded[0].value == z3.If(truth, ops_in["v"].value, 0)
+        if kind == "input":
+            return d_kept and not folded
+        # run-time value
+        if d_kept:
+            return And(truth, not folded)
+        return And(Not(truth), len(folded) == 1, folded[0].value == 0 if folded else False)
+
+    def set_ids(a):
+        for n, o in zip("abvd", a.ir_operations):
+            o._fields["node_id"] = n
+        return True
+
+    return Contract(
+        qualname=CPO + "optimize",
+        params={"self": ty.TObj("ConstantPropagationOptimizer", only=("ConstantPropagationOptimizer",)), "ir_operations": ty.TTuple(tuple(t for _n, t in nodes))},
+        requires=[("(node ids a, b, v, d)", set_ids)],
+        ensures=[("(a CMP b) : v folds to the constant (CMP ? V : 0) for a constant v, stays for an input v, stays / folds to 0 for a run-time v", post)],
+        uses={"ConstantPropagationOptimizer._maybe_mark_dead": "skip", "ConstantPropagationOptimizer._update_references": "inline",
+              "ConstantPropagationOptimizer._update_value": "inline", "fn:_map_operands": "inline",
+              "ConstantPropagationOptimizer._is_user_declared_operand": "inline", "ConstantPropagationOptimizer._get_const_value": "inline",
+              "ConstantPropagationOptimizer._fold_comparison": "inline", "ConstantPropagationOptimizer._fold_arithmetic": "inline"},
+        dynamic_types={"self": {"dead_nodes": ty.TConcrete(set()), "replacements": ty.TConcrete({})}},
+        properties=("C10", "C11", "C17"), min_obligations=1, no_replay=True, note=f"d = (a {op} b) : v with v a {kind}")
+
+
+for _op in ("<", "==", ">="):
+    for _kind in ("const", "input", "signal"):
+        CONTRACTS.append(_fold_scenario(_op, _kind))
